@@ -17,6 +17,9 @@ import LitexModel.Bits
   open p2p
   open socbus <n> <kind shared|crossbar> <reg 0|1> <timeout none|t> <dw> <addrWidth> <origin:size> …
        (the model itself selects point-to-point / shared / crossbar as `SoCBusHandler.do_finalize` does)
+  open socglue <kind shared|crossbar> <reg 0|1> <timeout none|t> <dw> <addrWidth> <op> …
+       (a whole build script against `SoCBusHandler`; opens only when every call and `do_finalize` are accepted)
+       op words:  M | S:<origin|N>:<size>:<cached>:<linker> | R:<origin|N>:<size>:<cached>:<linker> | I:<origin>:<size>
   decoder words:  all | hi:<shift>:<val> | set:<a>,<b>,… | region:<origin>:<size>
   (`dw` = data width in bits, `addrWidth` = `bus.address_width`, the byte-address width.)
 -/
@@ -112,5 +115,54 @@ def parseSoc (args : List String) : Option SocCfg :=
 
 def topologyName : Topology → String
   | .none => "none" | .p2p => "p2p" | .shared => "shared" | .crossbar => "crossbar"
+
+/-! ### build scripts (`socglue`) and `check_regions_overlap` -/
+
+def parseOptNat (w : String) : Option (Option Nat) := if w == "N" then some none else w.toNat?.map some
+
+def parseGlueOp (w : String) : Option GlueOp :=
+  match w.splitOn ":" with
+  | ["M"] => some .master
+  | ["S", o, sz, c, l] => do some (.slave (← parseOptNat o) (← sz.toNat?) (← parseBool c) (← parseBool l))
+  | ["R", o, sz, c, l] => do some (.region (← parseOptNat o) (← sz.toNat?) (← parseBool c) (← parseBool l))
+  | ["I", o, sz] => do some (.io (← o.toNat?) (← sz.toNat?))
+  | _ => none
+
+def parseKind (w : String) : Option BusKind :=
+  match w with | "shared" => some .shared | "crossbar" => some .crossbar | _ => none
+
+/-- `<kind> <reg> <timeout> <dw> <aw> <op> …` -/
+def parseGlue (args : List String) : Option GlueResult :=
+  match args with
+  | kind :: reg :: t :: dw :: aw :: ops => do
+    let kind ← parseKind kind; let reg ← parseBool reg; let t ← parseTimeout t
+    let dw ← dw.toNat?; let aw ← aw.toNat?
+    let ops ← ops.mapM parseGlueOp
+    some (glueBuild dw aw kind reg t ops)
+  | _ => none
+
+/-- Answer of `call socglue …`: `rej <k>` | `finrej` | `ok <topology> <n> <origin>:<size> …` -/
+def showGlue : GlueResult → String
+  | .rejected k => s!"rej {k}"
+  | .finRejected => "finrej"
+  | .built c => " ".intercalate (["ok", topologyName c.topology, toString c.n] ++
+      c.regions.map fun r => s!"{r.1}:{r.2}")
+
+/-- `<origin>:<size>:<linker>` -/
+def parseOvRegion (w : String) : Option Soc.Region :=
+  match w.splitOn ":" with
+  | [o, sz, l] => do some { origin := ← o.toNat?, size := ← sz.toNat?, linker := ← parseBool l }
+  | _ => none
+
+/-- `call overlap <check_linker 0|1> <origin>:<size>:<linker> …`  ->  `none` | `<i> <k>` -/
+def callOverlap (args : List String) : Option String :=
+  match args with
+  | cl :: regs => do
+    let cl ← parseBool cl
+    let rs ← regs.mapM parseOvRegion
+    match checkRegionsOverlap cl rs with
+    | none => some "none"
+    | some (i, k) => some s!"{i} {k}"
+  | _ => none
 
 end Litex.Wishbone
